@@ -949,6 +949,88 @@ def controller_population_case(ctx, rng, idx):
             return
 
 
+def prefixed_error_case(ctx, rng, idx):
+    """multi-output objects built from error models that already carry fixed
+    parameters: every error parameter - fixed or free - is addressed by its
+    output-prefixed name, so releasing / re-fixing it by that name works"""
+    route = ['reduced_error_models', 'controller'][idx % 2]
+    holder = ['LogLikelihood', 'PredictiveModel'][(idx // 2) % 2]
+    cnames = [sorted(D.ERROR_MODELS)[int(rng.integers(4))] for _ in range(2)]
+    o_fix = int(rng.integers(2))
+    em_full = []
+    for o, cn in enumerate(cnames):
+        em_full += ['Out %d %s' % (o + 1, n_) for n_ in getattr(
+            chi, cn)().get_parameter_names()]
+    full = ['a1', 'a2', 'k', 'b'] + em_full
+    base_names = getattr(chi, cnames[o_fix])().get_parameter_names()
+    j = int(rng.integers(len(base_names)))
+    fixed_public = 'Out %d %s' % (o_fix + 1, base_names[j])
+    value = float(rng.uniform(0.2, 0.5))
+    feats = {'route': route, 'holder': holder, 'error_models': cnames,
+             'fixed': fixed_public}
+    ctx.case(('prefixed_error', route, holder, tuple(cnames), fixed_public),
+             True, sample=feats)
+    times = [np.sort(rng.choice(GL.POOL[1:], size=3, replace=False))
+             for _ in range(2)]
+    obs = [rng.uniform(1, 4, size=3) for _ in range(2)]
+    try:
+        if route == 'controller':
+            rows = []
+            for o in range(2):
+                for tt, vv in zip(times[o], obs[o]):
+                    rows.append({'ID': 1, 'Time': float(tt),
+                                 'Observable': 'Out %d' % (o + 1),
+                                 'Value': float(vv)})
+            c = chi.ProblemModellingController(
+                toys.ToyMulti(2), [getattr(chi, cn)() for cn in cnames])
+            c.set_data(pd.DataFrame(rows))
+            c.fix_parameters({fixed_public: value})
+            if holder == 'LogLikelihood':
+                c.set_log_prior(pints.ComposedLogPrior(*[
+                    pints.GaussianLogPrior(0.5, 3)
+                    for _ in range(c.get_n_parameters())]))
+                obj = c.get_log_posterior().get_log_likelihood()
+            else:
+                obj = c.get_predictive_model()
+        else:
+            ems = [getattr(chi, cn)() for cn in cnames]
+            ems[o_fix] = chi.ReducedErrorModel(ems[o_fix])
+            ems[o_fix].fix_parameters({base_names[j]: value})
+            if holder == 'LogLikelihood':
+                obj = chi.LogLikelihood(toys.ToyMulti(2), ems, obs, times)
+            else:
+                obj = chi.PredictiveModel(toys.ToyMulti(2), ems)
+    except Exception as e:      # noqa
+        ctx.violation_exc('construction_raises', e, {'case': feats}, feats)
+        return
+    ctx.count('prefixed_error_objects')
+    want = [n_ for n_ in full if n_ != fixed_public]
+    got = list(obj.get_parameter_names())
+    if got != want:
+        ctx.violation('names_and_counts_list_free_parameters',
+                      'names_with_prefixed_fixed_error_parameter',
+                      {'names': got, 'expected': want}, feats)
+        return
+    try:
+        obj.fix_parameters({fixed_public: None})
+        got = list(obj.get_parameter_names())
+        if got != full:
+            ctx.violation('release_restores_the_parameter',
+                          'release_by_prefixed_name_ignored',
+                          {'released': fixed_public, 'names': got,
+                           'expected': full}, feats)
+            return
+        new_val = float(rng.uniform(0.2, 0.5))
+        obj.fix_parameters({fixed_public: new_val})
+        got = list(obj.get_parameter_names())
+        if got != want:
+            ctx.violation('names_and_counts_list_free_parameters',
+                          'refix_by_prefixed_name_ignored',
+                          {'names': got, 'expected': want}, feats)
+    except Exception as e:      # noqa
+        ctx.violation_exc('fix_parameters_raises', e, {'case': feats}, feats)
+
+
 FAMILIES = [
     Family('random', random_case, quick=1600, thorough=30000),
     Family('exhaustive', exhaustive_case,
@@ -959,4 +1041,5 @@ FAMILIES = [
            thorough=480),
     Family('controller_population', controller_population_case, quick=60,
            thorough=600),
+    Family('prefixed_error', prefixed_error_case, quick=160, thorough=1600),
 ]
